@@ -468,8 +468,13 @@ pub enum Op {
     /// Pop try handler (normal completion)
     PopTry,
 
-    /// End of finally block - complete any pending return/throw
-    FinallyEnd,
+    /// Start of a finally block: park the completion that led here (return / throw / break /
+    /// continue, or nothing on normal entry) in r[slot], so that try statements and abrupt
+    /// exits inside the block cannot lose or resurrect it
+    FinallyStart { slot: Register },
+
+    /// End of finally block - complete the return/throw/break/continue parked in r[slot]
+    FinallyEnd { slot: Register },
 
     /// Get caught exception value: r[dst] = caught_exception
     GetException { dst: Register },
